@@ -16,7 +16,7 @@ Extraction "model.ml"
   NodeState.iter_prefix NodeState.get_versioned
   Bytes.id_len
   Monitors.c02_ok Monitors.c03_ok Monitors.c04_nodes_ok Monitors.c05_own_ok Monitors.c07_delta_ok
-  Monitors.digest_excludes Monitors.c12_sets_ok Monitors.c12_after_eval_ok Monitors.c13_watch_ok
+  Monitors.digest_excludes Monitors.c14_delta_ok Monitors.c12_sets_ok Monitors.c12_after_eval_ok Monitors.c13_watch_ok
   Monitors.c20_ok Monitors.kvs_eqb Monitors.ledger_max Monitors.any_reset
   Listener.subscribe Listener.unsubscribe Listener.trigger_event Listener.expected_calls
   Loop.step Loop.ls_init Loop.discipline
